@@ -3,6 +3,7 @@ package query
 //verif:property C06
 //verif:pkg lib/query
 //verif:harness VerifC06IntegerRange mode=bv tier=quick
+//verif:harness VerifC06IntegerLiterals mode=bv tier=quick
 
 import "github.com/mithrandie/csvq/lib/value"
 
@@ -34,5 +35,33 @@ func VerifC06IntegerRange() {
 		verifAssert("a + b is the sum modulo 2^64", got == a+b)
 	}
 	verifObserve("result", got)
+	verifReach("end")
+}
+
+// Integer literals keep the integer rung over the whole non-negative int64 range: a literal from a
+// menu of boundary values (around 2^31, 2^32, 2^53, 2^63-1) evaluates to that integer, divides as an
+// integer, and differs from its neighbour.
+func VerifC06IntegerLiterals() {
+	menu := []int64{0, 7, 2147483647, 2147483648, 3000000000, 4294967296, 9007199254740993, 9223372036854775806, 9223372036854775807}
+	n := menu[verifChoice("literal", len(menu))]
+	lit := value.Int64ToStr(n)
+	tx := verifNewTx()
+	scope := NewReferenceScope(tx)
+	q := verifParseSelect("select " + lit + ", " + lit + " / 7, " + lit + " = " + lit + " - 1, -" + lit)
+	view, err := Select(verifCtx(), scope, q)
+	verifAssert("the query runs", err == nil && view.RecordLen() == 1)
+	if err != nil || view.RecordLen() != 1 {
+		return
+	}
+	rec := view.RecordSet[0]
+	i0, ok0 := rec[0][0].(*value.Integer)
+	verifAssert("the literal is that integer", ok0 && i0.Raw() == n)
+	i1, ok1 := rec[1][0].(*value.Integer)
+	verifAssert("integer division of the literal", ok1 && i1.Raw() == n/7)
+	t2, ok2 := rec[2][0].(*value.Ternary)
+	verifAssert("the literal differs from its predecessor", ok2 && t2.Ternary().String() == "FALSE")
+	i3, ok3 := rec[3][0].(*value.Integer)
+	verifAssert("the negated literal", ok3 && i3.Raw() == -n)
+	verifObserve("literal", n)
 	verifReach("end")
 }
